@@ -524,22 +524,32 @@ def check_gen_literals(cx, chk):
         evs = templates.events(cx, cg, b)
         holes = [ev for ev in evs if ev["kind"] == "hole"]
         if last(q[0]) == "StringLiteral":
-            for ev in holes:
-                e = ev["expr"]
-                if is_call(e, "generate_skip_ws") or e[0] == "local":
-                    continue
-                n += 1
-                # allowed shapes over X = decoded literal (String::try_from(self)?)
-                calls = [last(s_[1]) for s_ in walk(e) if s_[0] == "call"]
-                allowed = {"unwrap", "next", "chars", "deref", "to_ascii_lowercase", "branch", "try_from", "as_str", "as_ref"}
-                extra = [c for c in calls if c not in allowed]
-                src = [s_ for s_ in walk(e) if is_call(s_, "try_from") and s_[2] and s_[2][0] == ("param", 1)]
-                if extra or not src:
-                    chk.violation("C01.gen", "StringLiteral literal passes through %s" % (extra[0] if extra else "?"),
-                                  "the literal emitted for a string/character literal is not the decoded literal itself (or its ASCII lower-case): it passes "
-                                  "through %s - %s" % (extra, mir.show(e)[:200]), cx.site(b, ev["bb"]))
-                else:
-                    chk.ok("C01.gen", "StringLiteral hole %s" % mir.show(e)[:60], {"emitted": mir.show(e)[:160]})
+            # read off the semantic summary: on every returning path the literal handed to the selected matcher is the decoded
+            # literal itself (or its only character), lower-cased exactly on the case-insensitive paths
+            from .. import sem
+            try:
+                sm, sels = templates.matcher_selections(cx, cg, p)
+            except sem.SemLimit as ex:
+                chk.violation("C01.gen", "StringLiteral unsummarised", str(ex), cx.site(b))
+                continue
+            X = None
+            for (leaf, name, vals, ev) in sels:
+                for v in vals:
+                    n += 1
+                    src = [s_ for s_ in walk(v) if is_call(s_, "try_from") and s_[2] and s_[2][0] == ("param", 1)]
+                    X = mir.mk("field", mir.mk("downcast", src[0], "Ok"), "0") if src else None
+                    allowed = {"unwrap", "next", "chars", "deref", "as_str", "as_ref", "clone", "to_string", "to_owned"}
+                    if name.endswith("_insensitive"):
+                        allowed = allowed | {"to_ascii_lowercase"}
+                    if X is None or not templates.derives_from(v, X, allowed):
+                        extra = [last(s_[1]) for s_ in walk(v) if s_[0] == "call" and last(s_[1]) not in allowed and last(s_[1]) != "try_from"]
+                        chk.violation("C01.gen", "StringLiteral literal passes through %s" % (extra[0] if extra else "?"),
+                                      "the literal emitted for %s is not the decoded literal itself (or its ASCII lower-case): it passes "
+                                      "through %s - %s" % (name, extra, mir.show(v)[:200]), cx.site(b, ev[2][1]))
+                    else:
+                        chk.ok("C01.gen", "StringLiteral %s literal %s" % (name, mir.show(v)[:50]), {"matcher": name, "emitted": mir.show(v)[:160]})
+            if not sels:
+                chk.violation("C01.gen", "StringLiteral no-selection", "no returning path of StringLiteral::generate_inline_body hands a terminal matcher name on", cx.site(b))
         else:
             # quote!(#from, #to): the stream passed to the skip helper
             for i, t in b.calls():
